@@ -184,6 +184,18 @@ CLAIMED = {
              'memoisation; the set of memo tables was found by reading the source (a new cache elsewhere is only caught by the history/memory runs).',
         technique='Coq proof (memo-table transparency and boundedness by induction over histories) + history/memory/thread correspondence',
         design='6 C13'),
+    'C17': dict(
+        text='Theorems (Coq, closed) over signatures of positional-or-keyword / keyword-only parameters of ANY length: the parameters the schema '
+             'extractor documents are exactly the signature minus the injected (context) parameter, i.e. exactly what the binder binds; required '
+             '= without default; and a params object is accepted by binding IFF it names only documented parameters and all required ones - so '
+             'a request following the published schema is never refused with -32602 by binding and one that omits a required or adds an unlisted '
+             'name (the context parameter included) always is. Correspondence: OpenAPI 3.0/3.1 and OpenRPC documents are REALLY generated for every '
+             'signature / context position / function, coroutine, view method, their properties and required lists read out, and every params '
+             'object over subsets of (names + undocumented + context) dispatched.',
+        note='trusted: Coq kernel + vm_compute; the extractor filter and inspect.Signature.bind as transcribed (validated on the enumerated signatures); '
+             'pydantic lists exactly the declared fields with required = no default (oracle, checked on every case); parameters are unannotated.',
+        technique='Coq proof (bind succeeds iff keys within documented names and covering the required ones, induction over signatures) + correspondence on generated documents',
+        design='6 C17'),
 }
 
 PENDING_REASON = 'not claimed yet: model, theorems and correspondence for this property are not all in place in this commit (see DESIGN.md section 10)'
